@@ -162,6 +162,17 @@ def family_multi(tier, seed, n):
         cfg = dcfg(limit=3, nakproc=rnd.choice(["def", "imm"]), closure=rnd.choice([False, True]))
         out.append({"id": "multi-%d-%d" % (seed, i), "seed": seed * 1000 + i, "entities": ents, "cfg": cfg, "puts": puts,
                     "faults": faults, "cmds": [], "strays": strays, "horizon": 150000, "daemon_only": reflect})
+    # what starts a receive transaction: the FIRST PDU that gets through may be any of them (the leading PDUs of a
+    # transfer lost: Metadata only, Metadata and the data, everything but the EOF), next to an undisturbed neighbour
+    j = 0
+    for mode in ("ack", "unack"):
+        for size, lost in ((0, [1]), (1, [1]), (1, [1, 2]), (2, [1, 2]), (2, [1, 2, 3])):
+            puts = [{"at": 0, "from": 1, "to": 2, "file": [1, 2, 0][:size], "mode": mode},
+                    {"at": 20000, "from": 2, "to": 1, "file": [2, 1], "mode": "ack"}]
+            faults = {"1-2": {"at": [{"k": k, "a": "drop", "d": 1} for k in lost]}}
+            out.append({"id": "first-%d-%d" % (seed, j), "seed": seed * 1000 + 500 + j, "entities": [1, 2], "cfg": dcfg(limit=3, nakproc="def", closure=False),
+                        "puts": puts, "faults": faults, "cmds": [], "strays": [], "horizon": 150000, "daemon_only": False})
+            j += 1
     return out
 
 
